@@ -354,8 +354,17 @@ def field_laws(prog):
             gs = prog.resolve(inner[1])
             if len(gs) == 1:
                 g = gs[0]
-                for x in mir.subterms(g.terms.ret):
+
+                def alts(x):
                     x = strip(x)
+                    if x[0] in ("gamma", "phi"):
+                        o = []
+                        for _, v in x[2]:
+                            o += alts(v)
+                        return o
+                    return [x]
+                # the *results* of the helper that are `e % P` (an operand reduced before a loop is not a result)
+                for x in alts(g.terms.ret):
                     if x[0] == "bin" and x[1] == "Rem" and strip(x[3]) == ("cparam", "P"):
                         terms.append((x[2], {(1, "v"): None}, g))
         else:
